@@ -247,7 +247,9 @@ func (r *c21Run) answer(c *rawSrvConn, reqID uint32, req ua.Request) {
 }
 
 func (r *c21Run) publish(c *rawSrvConn, reqID, h uint32, v, acks int) {
-	time.Sleep(20 * time.Millisecond) // publish answers are paced
+	// publish answers are paced; some are held long enough for several API calls
+	// (cancel, forget, monitor) to complete while the request is outstanding
+	time.Sleep(time.Duration([]int{20, 20, 1, 150, 20, 400}[r.vi%6]) * time.Millisecond)
 	hdr := rawRespHeader(h, ua.StatusOK)
 	nm := &ua.NotificationMessage{SequenceNumber: uint32(r.vi), PublishTime: time.Now()}
 	dcn := &ua.DataChangeNotification{DiagnosticInfos: []*ua.DiagnosticInfo{}}
@@ -282,9 +284,16 @@ func (r *c21Run) publish(c *rawSrvConn, reqID, h uint32, v, acks int) {
 	}
 	res := make([]ua.StatusCode, c21Count(v, acks))
 	for i := range res {
-		res[i] = []ua.StatusCode{ua.StatusOK, ua.StatusBadSequenceNumberUnknown, ua.StatusBadSubscriptionIDInvalid, ua.StatusBadInternalError}[(v+i)%4]
+		// (independent of the count variant: with v alone the first result of a
+		// response with the right number of results was always Good)
+		res[i] = []ua.StatusCode{ua.StatusOK, ua.StatusBadSequenceNumberUnknown, ua.StatusBadSubscriptionIDInvalid, ua.StatusBadInternalError}[(v/4+r.vi+i)%4]
 	}
+	// mostly ids the scripted CreateSubscription hands out (1..3), so that notifications
+	// belong to subscriptions the client knows and are acknowledged later
 	sub := uint32(1 + v%4)
+	if r.vi%3 != 0 {
+		sub = uint32(1 + r.vi%3)
+	}
 	if v == 7 {
 		sub = 0
 	}
